@@ -30,6 +30,7 @@ class Report:
         self.t0 = time.time()
         self.obligations: list[dict] = []
         self.violations: list[dict] = []
+        self.analysis_errors: list[str] = []  # rule groups that could not read the code (recorded; the other groups still run)
         self.known_hits: list[dict] = []
         self.notes: list[str] = []
         self.analysed: dict = {"functions": set(), "paths": 0, "loops": 0, "resolved_calls": 0, "unresolved_calls": 0}
@@ -121,6 +122,14 @@ class Report:
         for (fid, rule, fn, slot), hits in by_id.items():
             print(f"KNOWN-FINDING: property={self.prop} {fid} {rule} at {fn} [{slot}]: {hits[0]['detail']} "
                   f"({len(hits)} instance(s), e.g. {hits[0].get('extracted', '')})")
+        if self.analysis_errors and not self.violations:
+            # some rule could not read the code and no other rule found a violation: no verdict
+            for e in self.analysis_errors[1:]:
+                print(f"[analysis-error] {e}")
+            print(f"ANALYSIS-ERROR: {self.prop}: {self.analysis_errors[0]}")
+            return 2
+        for e in self.analysis_errors:
+            print(f"[analysis-error] (no verdict from this rule) {e}")
         broken = [(w, f, m) for w, f, m in self.floors if f < m]
         if broken and not self.violations:
             # a rule that bound fewer instances than confirmed by hand would pass vacuously: analysis-broken
